@@ -26,12 +26,17 @@ Fixpoint nbytes_fuel (fuel : nat) (v : N) : nat :=
   | O => 1
   | S f => if v <? 256 then 1 else S (nbytes_fuel f (v / 256))
   end.
-Definition nbytes (v : N) : nat := nbytes_fuel 40 v.
+Definition nbytes_raw (v : N) : nat := nbytes_fuel 40 v.
+(** operands are left-padded to the next of 1, 2, 4, 8 octets (longer ones are left alone and
+    then fail the width lookup)  [build/proposed/c08-flowspec-framing.diff] *)
+Definition nbytes (v : N) : nat :=
+  let n := nbytes_raw v in
+  if Nat.leb n 1 then 1 else if Nat.leb n 2 then 2 else if Nat.leb n 4 then 4 else if Nat.leb n 8 then 8 else n.
 
-(** opt_dict['LEN'] : {1: 0x00, 2: 0x10, 4: 0x20, 6: 0x30}, KeyError otherwise *)
+(** opt_dict['LEN'] : {1: 0x00, 2: 0x10, 4: 0x20, 8: 0x30}, KeyError otherwise *)
 Definition len_code (n : nat) : res N :=
   if Nat.eqb n 1 then Ok 0 else if Nat.eqb n 2 then Ok 16 else if Nat.eqb n 4 then Ok 32
-  else if Nat.eqb n 6 then Ok 48 else Exc.
+  else if Nat.eqb n 8 then Ok 48 else Exc.
 
 (** construct_operators on a '|'-separated list; the last item carries EOL *)
 Fixpoint fs_construct_ops (ops : list op) : res bytes :=
@@ -71,7 +76,7 @@ Definition fs_construct_nlri (f : flow) : res bytes :=
   bind (fs_opt_prefix c_BGPNLRI_FSPEC_SRC_PFIX (f_src f)) (fun b2 =>
   bind (fs_construct_comps fs_op_types (f_ops f)) (fun b3 =>
   let b := b1 ++ b2 ++ b3 in
-  if 240 <=? len b then (if 65535 <? len b then Exc else Ok (be 2 (len b) ++ b))
+  if 240 <=? len b then (if 4095 <? len b then Exc else Ok (be 2 (61440 + len b) ++ b))   (* 0xf000 | len *)
   else match b with [] => Exc | _ => Ok (len b :: b) end))).
 
 Fixpoint fs_construct (fs : list flow) : res bytes :=
